@@ -2,9 +2,6 @@
 import os
 from vlib import core
 
-INV = "INVARIANT DeliveryIffSelected\nINVARIANT Routing\nINVARIANT TagRouting\nINVARIANT Twins\nINVARIANT UnusedClean\n"
-
-
 def tok(x):
     return ".".join(str(c) for c in x) if isinstance(x, list) else str(x)
 
@@ -105,8 +102,12 @@ def run(ctx):
     jobs = max(1, int(os.environ.get("VERIF_JOBS", "1") or 1))
     pool = ThreadPoolExecutor(max_workers=jobs)
 
+    # (2, submitted first because generation waits for it) which recorded findings are still present in this
+    #     tree?  directed reproducers, nothing excluded
+    f_probe = pool.submit(probe, ctx, exe)
+
     # (1) design check: the mechanism the property requires (Bugs = {}) satisfies the property in every
-    #     reachable state of the bounded model  (the TLC runs of this section run side by side)
+    #     reachable state of the bounded model
     f_main = pool.submit(ctx.model_check, "LogRouteMC.tla", "LogRouteMC.cfg" if q else "LogRouteMC_thorough.cfg", 4)
     f_tags = pool.submit(ctx.model_check, "LogRouteMC.tla", "LogRouteMC_tags.cfg", 4)
     # model-level reproducers: each recorded deviation, switched on in the model, must yield a counterexample
@@ -119,8 +120,7 @@ def run(ctx):
     # the trigger predicates that steer generation are complete for the modelled deviations
     f_asis = [pool.submit(ctx.model_check, "LogRouteMC.tla", "LogRouteMC_asis%s.cfg" % v, 4, count=False) for v in ("", "_tags")]
 
-    # (2) which recorded findings are still present in this tree?  (directed reproducers, nothing excluded)
-    act = probe(ctx, exe)
+    act = f_probe.result()
     ctx.log("recorded findings still reproducing:", act)
 
     # (3) spec -> code -> spec: model histories executed on the real library, every call validated by TLC
@@ -131,7 +131,7 @@ def run(ctx):
             ("U1", 3, [1], (5, 2, 5)), ("U2", 2, [1, 2, 3], (6, 4, 7)), ("U3", 2, [1, 2], (6, 4, 7)), ("U4", 2, [1, 2, 3], (6, 5, 10))]
     if q:
         plan = plan[:4]
-    f_s = [pool.submit(gen, ctx, uni, nt, tv, bounds, 30 if q else 45, "simulate", act, num=(600 if q else 4000), tag="-%d" % i)
+    f_s = [pool.submit(gen, ctx, uni, nt, tv, bounds, 30 if q else 45, "simulate", act, num=(600 if q else 6000), tag="-%d" % i)
            for i, (uni, nt, tv, bounds) in enumerate(plan)]
     r = f_main.result()
     ctx.check_vacuity(r, ["Open", "Close", "SetState", "AAdd", "Remove", "ClearAll", "ALog"])
@@ -161,7 +161,8 @@ def run(ctx):
         "filter texts are well-formed (no empty comma tokens); regular expressions from the subset literal, '.', atom'*', leading '^', trailing '$'",
         "REMOVE / TAG_CLEAR are generated with parameters that name exactly one stored rule or none (which rule a wider REMOVE takes out is not stated by the property)",
         "return codes asserted: 0 on success, -EBADF on a closed slot; the code for re-adding an existing rule is left open",
-        "steps falling under the recorded findings %s are left out of generated behaviours (LogRoute!KFTrigger); each has a directed reproducer and a model-level reproducer" % ", ".join(KF[n][0] for n in act),
+        ("steps falling under the recorded findings %s are left out of generated behaviours (LogRoute!KFTrigger); each has a directed reproducer and a model-level reproducer" % ", ".join(KF[n][0] for n in act))
+        if act else "no recorded finding reproduces on this tree: nothing is left out of generated behaviours",
         "bounded model: see model_runs constants; histories beyond the exhaustively enumerated depth are sampled, not enumerated",
         "single-threaded use (no threaded targets); memory errors are observed by ASan/UBSan on the harness",
     ]
